@@ -402,6 +402,7 @@ Lemma c14_step_OCheck m c x reqs :
     let due := filter (fun e : nat * Z => (Nat.eqb (fst e) c && negb (mem (snd e) (k_held m)) && negb (active m (snd e))) = true)
                       (k_tracked m) in
     if existsb (fun e => negb (mem (snd e) reqs)) due then (405, m) else
+    if existsb (fun t => mem t (k_confirmed m)) reqs then (407, m) else
     let '(code, m1) := fold_left req_fold reqs (0, m) in
     (code, TM (k_last m1) (k_held m1)
               (filter (fun e : nat * Z => negb (Nat.eqb (fst e) c && (mem (snd e) reqs || mem (snd e) (k_held m))) = true) (k_tracked m1))
@@ -551,7 +552,11 @@ Proof.
       apply negb_true_iff in H2, H3. apply Htr in Hin. destruct Hneg.
       apply elem_of_bfilter. split; [exact Hin|]. unfold rq.
       rewrite <- Hheld, H2. rewrite Hactive in H3. apply negb_false_iff in H3. rewrite H3. reflexivity. }
-    rewrite Hex, HL. reflexivity.
+    assert (Hex7 : existsb (fun t => mem t (k_confirmed m)) reqs = false).
+    { apply not_true_is_false. intros Hex7. apply existsb_exists in Hex7. destruct Hex7 as (t & Hin & Hm).
+      apply elem_of_list_In, elem_of_bfilter in Hin. destruct Hin as [Hin _]. fold l in Hin.
+      rewrite (Hconf c t Hin) in Hm. discriminate. }
+    rewrite Hex, Hex7, HL. reflexivity.
   - constructor; prj.
     + exact Hclk.
     + intros t. rewrite HlrL, Hq, Hclk, Hlast. reflexivity.
